@@ -72,19 +72,28 @@ class Stats:
 
 
 class Path:
-    __slots__ = ("solver", "prefix", "decisions", "conds", "steps", "notes", "model", "known", "pinned", "vals")
+    """One execution.  `region` is the list of conditions that define the part of the input space this execution
+    must cover (asserted, never branched on again); `conds` are the conditions newly decided in this run, each
+    (cond, kind, expr) with kind 'b' (branch), 'v' (value fork on expr) or 'a' (assumption).  The run is steered by
+    `model`, a model of region + conds so far (concolic), so replaying the region needs no positional alignment:
+    a condition that is semantically implied by the region simply evaluates to the same side under the model."""
 
-    def __init__(self, solver, prefix, model=None):
+    __slots__ = ("solver", "region", "region_keys", "conds", "steps", "notes", "model", "known", "pinned", "vals")
+
+    def __init__(self, solver, region, region_keys, model):
         self.solver = solver
-        self.prefix = prefix
-        self.model = model  # a model of all conditions taken so far (concolic guidance: no query per branch)
-        self.known = {}  # z3 ast id of a condition already on the path -> its truth value
-        self.pinned = []  # (variable, value) pairs fixed by value forks: substituted before deciding anything
-        self.vals = {}  # z3 ast id of an expression already concretised on this path -> value
-        self.decisions = []  # bool (branch) or int (value fork) or ("v", int)
+        self.region = region
+        self.region_keys = region_keys
         self.conds = []
         self.steps = 0
         self.notes = []
+        self.model = model
+        self.known = {}  # structural key of a condition already decided on this path -> truth value
+        self.pinned = []  # (variable, value) pairs fixed by value forks: substituted before deciding anything
+        self.vals = {}  # structural key of an expression already concretised on this path -> value
+
+    def all_conds(self):
+        return self.region + [c[0] for c in self.conds]
 
 
 CUR: Path | None = None
@@ -162,6 +171,11 @@ def _is_num(o):
     )
 
 
+def _key(e):
+    """structural key of a z3 term (AST ids can be reused after garbage collection, s-expressions cannot)"""
+    return e.sexpr()
+
+
 class SBool:
     __slots__ = ("e",)
 
@@ -183,37 +197,37 @@ class SBool:
                 return True
             if z3.is_false(e):
                 return False
-        eid = e.get_id()
-        if eid in p.known:
-            return p.known[eid]  # same condition already decided on this path: no new decision
-        k = len(p.decisions)
+        key = _key(e)
+        if key in p.known:
+            return p.known[key]  # same condition already decided on this path
+        # the side the current model takes is feasible by construction; the other side is decided by the
+        # solver when siblings are scheduled
+        ev = p.model.eval(e, model_completion=True)
+        if z3.is_true(ev):
+            d = True
+        elif z3.is_false(ev):
+            d = False
+        else:
+            base = p.all_conds()
+            r = _check(p.solver, *base, e)
+            if r == z3.unknown:
+                raise Budget("solver unknown")
+            d = r == z3.sat
+            if not d:
+                r2 = _check(p.solver, *base, z3.Not(e))
+                if r2 != z3.sat:
+                    raise Infeasible()
+            p.model = p.solver.model()
+        c = e if d else z3.Not(e)
+        p.known[key] = d
+        if z3.is_not(e):
+            p.known[_key(e.arg(0))] = not d
+        if _key(c) in p.region_keys:
+            return d  # part of the region this execution was scheduled for: not a new decision
         p.steps += 1
         if p.steps > MAX_STEPS:
             raise Budget("path step budget")
-        if k < len(p.prefix):
-            d = p.prefix[k]
-        else:
-            # the side the current model takes is feasible by construction; the other side is
-            # decided by the solver when siblings are scheduled
-            ev = p.model.eval(e, model_completion=True)
-            if z3.is_true(ev):
-                d = True
-            elif z3.is_false(ev):
-                d = False
-            else:
-                r = _check(p.solver, *p.conds, e)
-                if r == z3.unknown:
-                    raise Budget("solver unknown")
-                d = r == z3.sat
-                r2 = _check(p.solver, *p.conds, e if d else z3.Not(e))
-                if r2 != z3.sat:
-                    raise Infeasible()
-                p.model = p.solver.model()
-        p.decisions.append(d)
-        p.conds.append(e if d else z3.Not(e))
-        p.known[eid] = d
-        if z3.is_not(e):
-            p.known[e.arg(0).get_id()] = not d
+        p.conds.append((c, "b", None))
         return d
 
     def __and__(self, o):
@@ -253,22 +267,27 @@ def _fork_value(expr):
         expr = z3.simplify(z3.substitute(expr, *p.pinned))
         if z3.is_int_value(expr):
             return expr.as_long()
-    xid = expr.get_id()
+    xid = _key(expr)
     if xid in p.vals:
         return p.vals[xid]
-    k = len(p.decisions)
-    p.steps += 1
-    if p.steps > MAX_STEPS:
-        raise Budget("path step budget")
-    if k < len(p.prefix):
-        v = p.prefix[k][1]
-    else:
-        v = p.model.eval(expr, model_completion=True).as_long()
-    p.decisions.append(("v", v))
-    p.conds.append(expr == v)
+    ev = p.model.eval(expr, model_completion=True)
+    if not z3.is_int_value(ev):
+        r = _check(p.solver, *p.all_conds())
+        if r != z3.sat:
+            raise Budget("solver unknown")
+        p.model = p.solver.model()
+        ev = p.model.eval(expr, model_completion=True)
+    v = ev.as_long()
+    c = expr == v
     p.vals[xid] = v
     if z3.is_const(expr) and expr.decl().kind() == z3.Z3_OP_UNINTERPRETED:
         p.pinned.append((expr, z3.IntVal(v)))
+    if _key(c) in p.region_keys:
+        return v
+    p.steps += 1
+    if p.steps > MAX_STEPS:
+        raise Budget("path step budget")
+    p.conds.append((c, "v", expr))
     return v
 
 
@@ -631,16 +650,17 @@ def assume(cond):
             return
         if z3.is_false(e):
             raise Infeasible()
-        k = len(p.decisions)
-        if k >= len(p.prefix) and not z3.is_true(p.model.eval(e, model_completion=True)):
-            r = _check(p.solver, *p.conds, e)
+        if not z3.is_true(p.model.eval(e, model_completion=True)):
+            r = _check(p.solver, *p.all_conds(), e)
             if r == z3.unknown:
                 raise Budget("solver unknown")
             if r != z3.sat:
                 raise Infeasible()
             p.model = p.solver.model()
-        p.conds.append(e)
-        p.decisions.append("a")  # assumption marker: keeps prefix indices aligned, never negated
+        k = _key(e)
+        p.known[k] = True
+        if k not in p.region_keys:
+            p.conds.append((e, "a", None))
         return
     if not cond:
         raise Infeasible()
@@ -774,7 +794,7 @@ def explore(
     allowed = tuple(allowed)
     if _check(s) != z3.sat:
         raise RuntimeError("variable domains unsatisfiable")
-    stack = [([], s.model())]
+    stack = [([], frozenset(), s.model())]
     cex = []
     known = {}
     samples = []
@@ -791,30 +811,30 @@ def explore(
         if STATS.paths >= max_paths:
             inconclusive.append("path budget")
             break
-        prefix, pmodel = stack.pop()
-        CUR = p = Path(s, prefix, pmodel)
+        region, rkeys, pmodel = stack.pop()
+        CUR = p = Path(s, region, rkeys, pmodel)
         kwargs = {n: SInt(v) for n, v in zvars.items()}
         try:
             out = _outcome_class(fn, kwargs, allowed)
         except Infeasible:
             CUR = None
-            _push_siblings(s, p, prefix, stack)
+            _push_siblings(s, p, stack)
             continue
         except Unreachable:
             CUR = None
             unreachable += 1
-            _push_siblings(s, p, prefix, stack)
+            _push_siblings(s, p, stack)
             continue
         except Budget as b:
             CUR = None
             inconclusive.append(str(b))
-            _push_siblings(s, p, prefix, stack)
+            _push_siblings(s, p, stack)
             continue
         finally:
             CUR = None
         STATS.paths += 1
         reached += 1
-        _push_siblings(s, p, prefix, stack)
+        _push_siblings(s, p, stack)
         kind = out[0] if out[0] in ("ok", "violated") else f"{out[0]}:{out[1]}"
         outcome_counts[kind] = outcome_counts.get(kind, 0) + 1
         # model of the path (maintained concolically: satisfies every condition taken)
@@ -876,34 +896,35 @@ def explore(
     }
 
 
-def _push_siblings(s, p, prefix, stack):
-    for k in range(len(prefix), len(p.decisions)):
-        d = p.decisions[k]
-        if d == "a":
-            continue
-        if d is True or d is False:
-            altc = p.conds[:k] + [z3.Not(p.conds[k])]
-            r = _check(s, *altc)
+def _push_siblings(s, p, stack):
+    """schedule the unexplored sides of every decision taken in this run (each with its region and a model)"""
+    base = list(p.region)
+    keys = set(p.region_keys)
+    for c, kind, expr in p.conds:
+        if kind == "b":
+            alt = z3.Not(c)
+            r = _check(s, *base, alt)
             if r == z3.sat:
-                stack.append((p.decisions[:k] + [not d], s.model()))
-            elif r == z3.unknown:
-                pass  # counted in STATS.unknown -> inconclusive
-        else:
-            expr = p.conds[k].arg(0)
-            excl = [z3.Not(p.conds[k])]
+                stack.append((base + [alt], frozenset(keys | {_key(alt)}), s.model()))
+            # unknown is counted in STATS.unknown -> obligation inconclusive
+        elif kind == "v":
+            excl = [z3.Not(c)]
             n = 0
             while True:
-                r = _check(s, *p.conds[:k], *excl)
+                r = _check(s, *base, *excl)
                 if r != z3.sat:
                     break
                 mm = s.model()
                 v = mm.eval(expr, model_completion=True).as_long()
-                stack.append((p.decisions[:k] + [("v", v)], mm))
+                cv = expr == v
+                stack.append((base + [cv], frozenset(keys | {_key(cv)}), mm))
                 excl.append(expr != v)
                 n += 1
                 if n > MAX_FORK_VALUES:
                     STATS.unknown += 1  # treated as inconclusive: unbounded fork
                     break
+        base.append(c)
+        keys.add(_key(c))
 
 
 # --------------------------------------------------------------------------------------------
